@@ -2,7 +2,7 @@
    Tournament selection keeps the fittest and builds a well-formed generation. *)
 From Coq Require Import List Arith ZArith QArith.
 Import ListNotations.
-From AgileV Require Import Base.Prelude C05.Model C05.Proofs C05.SortModel C05.SortProofs C05.HeapModel C05.HeapProofs C05.PinnedModel C05.PinnedProofs C05.AnyRankProofs C05.WrapperPinnedModel C05.WrapperPinnedProofs C05.Check.
+From AgileV Require Import Base.Prelude C05.Model C05.Proofs C05.SortModel C05.SortProofs C05.HeapModel C05.HeapProofs C05.PinnedModel C05.PinnedProofs C05.AnyRankProofs C05.WrapperPinnedModel C05.WrapperPinnedProofs C05.CachedModel C05.CachedProofs C05.Check.
 Local Open Scope nat_scope.
 
 (* np.argsort(x).argsort() with a stable sort is a valid ranking: a permutation of 0..n-1 that is
@@ -234,6 +234,27 @@ Theorem wrapper_index_overwritten_refuted :
     (exists x, In x (skipn (off wp_cfg) (map a_index np)) /\ In x (map a_index wp_pop)).
 Proof. exact wrapper_index_overwritten. Qed.
 Print Assumptions wrapper_index_overwritten_refuted.
+
+(* ---- deepening 3: state kept on the selector object (seeded C05-t1 / C05-u2) ---- *)
+(* a selector that remembers the highest index it handed out is indistinguishable from the real (stateless) one
+   on a single lineage pop -> select -> mutate -> evaluate -> select ..., for any number of generations, any
+   ranking function, draws, mutations and scores: the ordinary training loop can never show the difference *)
+Theorem cached_counter_agrees_on_a_lineage :
+  forall (P : Type) (rkf : list Q -> list nat) c (gs : list (@generation P)) (pop : list (agent P)),
+  0 < psize c -> pop <> [] -> fst (run_cached rkf c pop gs) = run_generations rkf c pop gs.
+Proof. exact @run_cached_agrees. Qed.
+Print Assumptions cached_counter_agrees_on_a_lineage.
+
+(* ... but handed a population it did not produce, it repeats the elite's index and hands out indices of agents
+   it was given (the real select cannot: indices_fresh holds for every population passed in) *)
+Theorem cached_counter_breaks_on_reuse_refuted :
+  exists r1 st1 e np st2,
+    select_cached None (ranks (means cd_cfg cd_first)) cd_cfg cd_first cd_draws = (r1, st1) /\
+    select_cached st1 (ranks (means cd_cfg cd_second)) cd_cfg cd_second cd_draws = (Some (e, np), st2) /\
+    map a_index np = [8; 7; 8; 9]%Z /\ ~ NoDup (map a_index np) /\
+    (exists x, In x (skipn 1 (map a_index np)) /\ In x (map a_index cd_second)).
+Proof. exact cached_reuse_breaks. Qed.
+Print Assumptions cached_counter_breaks_on_reuse_refuted.
 
 (* ---- non-vacuity: concrete populations with ties, negative and unequal-length histories ---- *)
 Definition ex_pop : list (agent nat) :=
